@@ -106,4 +106,13 @@ CHECKS = {
             {"pkg": "pkg/client", "test": "TestVerif_C17", "shards": {"quick": 8, "thorough": 16}},
         ],
     },
+    "C18": {
+        "level": "exploration",
+        "technique": "runtime monitoring: server-side arrival-log checker (per-connection message order vs handshake point) and handler-callback checker under forged accepts, generated connection plans and randomly timed application calls",
+        "level_text": "Forgery rounds send one of six forged AcceptRegister messages (or the correct one as control) followed by a data burst and check IsAccepted, handler callbacks and Run's result; gating rounds run 1-4 scripted connections (accept late, close before accept, never accept, drop after the handshake) while application goroutines issue calls at random moments, and the scripted server's per-connection arrival log is checked: only handshake types before the handshake point, register validly signed with a fresh hash per connection, and no call reported as sent while no connection was past its handshake point. Exploration: forgeries, timings and drop points are unbounded; teardown windows are widened by the scripted delays.",
+        "level_note": "Trusted: the scripted server (key derivation with the repository's own bitcoin package), server-side timestamps from one monotonic clock. A call that returns success is only judged against a generous window ending when the next connection's register arrives.",
+        "runs": [
+            {"pkg": "pkg/client", "test": "TestVerif_C18", "shards": {"quick": 8, "thorough": 16}},
+        ],
+    },
 }
